@@ -46,7 +46,8 @@ struct Case
   std::vector<Loop> firstLoops;
   std::vector<Step> steps;
   std::vector<Loop> preLoops;  // parallel_for calls made BEFORE the first initTaskingSystem (backends start lazily)
-  auto tie() { return std::tie(first, firstLoops, steps, preLoops); }
+  int flush = 0;               // bit i: the i-th initialisation asks for flush-to-zero / denormals-are-zero as well
+  auto tie() { return std::tie(first, firstLoops, steps, preLoops, flush); }
 };
 
 static void burn(int us)
@@ -127,7 +128,7 @@ static std::string childBody(const Case &c, bool &exercised)
   }
   const int hw = (int)std::thread::hardware_concurrency();
   const int online = (int)sysconf(_SC_NPROCESSORS_ONLN);
-  initTaskingSystem(c.first);
+  initTaskingSystem(c.first, (c.flush & 1) != 0);
   int reported = numTaskingThreads();
   int expect;
   if (c.first > 0)
@@ -151,7 +152,7 @@ static std::string childBody(const Case &c, bool &exercised)
   }
   for (const Step &s : c.steps) {
     int n = std::max(1, s.n);
-    initTaskingSystem(n);
+    initTaskingSystem(n, ((c.flush >> (1 + (&s - &c.steps[0]))) & 1) != 0);
     int rep = numTaskingThreads();
     int want = THREADED ? n : 1;
     if (rep != want) {
@@ -210,7 +211,8 @@ static rc::Gen<Case> genCase()
   auto n = gen::weightedOneOf<int>({{3, pbt::range<int>(1, 8)}, {2, pbt::range<int>(1, 2 * hw)}});
   auto step = gen::build<Step>(gen::set(&Step::n, n), gen::set(&Step::loops, loops));
   return gen::build<Case>(gen::set(&Case::first, gen::weightedOneOf<int>({{2, gen::element<int>(-7, -1, 0)}, {1, gen::just(1)}, {3, n}})), gen::set(&Case::firstLoops, loops),
-      gen::set(&Case::steps, pbt::vec(step, 4)), gen::set(&Case::preLoops, gen::weightedOneOf<std::vector<Loop>>({{2, gen::just(std::vector<Loop>())}, {1, loops}})));
+      gen::set(&Case::steps, pbt::vec(step, 4)), gen::set(&Case::preLoops, gen::weightedOneOf<std::vector<Loop>>({{2, gen::just(std::vector<Loop>())}, {1, loops}})),
+      gen::set(&Case::flush, gen::weightedOneOf<int>({{2, gen::just(0)}, {1, pbt::range<int>(0, 31)}})));
 }
 
 static void register_properties()
